@@ -434,7 +434,8 @@ enum WorkerEnd {
 }
 
 fn spawn_worker(id: &str, a: &WorkerArgs) -> std::process::Child {
-    let exe = std::env::current_exe().expect("current_exe");
+    // /proc/self/exe keeps pointing at the running image even if the file was replaced by a rebuild meanwhile
+    let exe = if std::path::Path::new("/proc/self/exe").exists() { std::path::PathBuf::from("/proc/self/exe") } else { std::env::current_exe().expect("current_exe") };
     let mut cmd = Command::new(exe);
     cmd.arg("worker").arg(id).arg(a.tier.name());
     cmd.arg("--shard").arg(a.shard.to_string());
